@@ -135,6 +135,16 @@ class _Strip(ast.NodeTransformer):
             return isinstance(a.func.value, ast.Constant) and isinstance(a.func.value.value, str)
         return False
 
+    def visit_ExceptHandler(self, node):
+        # In an except handler whose log statement was stripped, assignments that only fed that log statement (names never
+        # loaded anywhere else in the function: `where`, `memory`, `future`, `pos`, `processed`) format the -- possibly
+        # symbolic -- input with repr(); drop them too.  Recorded in STATS['delog_dead_stores'].
+        before = self.removed
+        self.generic_visit(node)
+        if self.removed > before:
+            node._vrt_stripped = True
+        return node
+
     def visit_If(self, node):
         # `if log.isEnabledFor( X ): <only log statements>`  ->  pass
         self.generic_visit(node)
@@ -157,6 +167,25 @@ class _Strip(ast.NodeTransformer):
             return all(isinstance(b, ast.Attribute) and isinstance(b.value, ast.Name) and b.value.id in self.NAMES
                        for b in (v.func.body, v.func.orelse))
         return False
+
+
+def _dead_stores(fnode, qualname):
+    """see _Strip.visit_ExceptHandler"""
+    changed = True
+    while changed:
+        changed = False
+        loads = set()
+        for n in ast.walk(fnode):
+            if isinstance(n, ast.Name) and isinstance(n.ctx, ast.Load):
+                loads.add(n.id)
+        for h in ast.walk(fnode):
+            if not (isinstance(h, ast.ExceptHandler) and getattr(h, '_vrt_stripped', False)):
+                continue
+            for i, st in enumerate(h.body):
+                if isinstance(st, ast.Assign) and all(isinstance(t, ast.Name) and t.id not in loads for t in st.targets):
+                    STATS.setdefault('delog_dead_stores', []).append("%s:%s" % (qualname, ",".join(t.id for t in st.targets)))
+                    h.body[i] = ast.copy_location(ast.Pass(), st)
+                    changed = True
 
 
 _trees = {}
@@ -201,6 +230,7 @@ def delog_function(owner, name):
     node = s.visit(copy.deepcopy(node))
     if not s.removed:
         return 0
+    _dead_stores(node, fn.__qualname__)
     node.decorator_list = []
     if fn.__code__.co_freevars == ('__class__',):
         # compile inside a dummy class so that the compiler creates the __class__ cell reference
